@@ -3,7 +3,8 @@
 
   * a dotted path reaches values by descending through sub-documents, through each
     sub-document element of an array, and through array indexes; a branch that has no such
-    field is "missing";
+    field is "missing"; every dot-separated component is a field name, the empty one included
+    (`''` names the field `''`, `'a.'` the field `''` inside `a`);
   * a positive leaf predicate holds on a path iff some reached value satisfies it — the value
     itself, or, when it is an array, one of its elements; equality to null (and `$in` with
     null) also holds on a missing branch;
@@ -195,7 +196,6 @@ mutual
           | _ => .error .opFail)
         else if key = "$expr" then unmodelled
         else if key.startsWith "$" then .error .opFail      -- includes a top-level `$not`
-        else if !keyOk key then unmodelled
         else condHolds c (reach (splitDots key) d))
       let more ← matchFields rest d
       pure (here && more)
